@@ -290,6 +290,8 @@ def check(ctx):
     run.check(has_expr('_f.seek(0)', hh.node) and has_expr('_f.read(___)', hh.node) and has_expr('_h.update(___)', hh.node)
               and any(isinstance(x, ast.While) for x in ast.walk(hh.node)), 'DET', hh.where, hh.qualname,
               'seek(0); read until empty; update', 'the hash does not cover the whole written file')
+    nd = commits.descriptor_never_skipped(ctx)
+    run.floor('R19d', nd, 2, 'paths through write_file_to_output implementations')
     run.trusted += ['LF1', 'tell() of a text-mode temp file equals its byte size for UTF-8 output']
     run.not_decided += ['that tell() equals the byte size for every text; determinism of third-party writers (openpyxl)']
     return ('Ordering of size / hash / copy on the same temp file after finalisation; alias classification of every stat target '
